@@ -275,7 +275,7 @@ def _label_prefixes(lab):
     out = [lab]
     pos = len(lab)
     while True:
-        pos = lab.rfind(".", 0, pos)
+        pos = max(lab.rfind(".", 0, pos), lab.rfind("[", 0, pos))     # '.field' projections and '[i]' element reads
         if pos <= 0:
             break
         out.append(lab[:pos])
